@@ -215,9 +215,12 @@ func FromLibPayloads(c message.IKEPayloadContainer) ([]model.Payload, error) {
 	return out, nil
 }
 
-func fromTransforms(dst *[]model.Transform, c message.TransformContainer) {
+func fromTransforms(dst *[]model.Transform, c message.TransformContainer, container uint8) {
 	for _, lt := range c {
 		tr := model.Transform{Type: lt.TransformType, ID: lt.TransformID}
+		if lt.TransformType != container {
+			tr.FiledUnder = container
+		}
 		if lt.AttributePresent {
 			a := &model.Attr{Type: lt.AttributeType, TV: lt.AttributeFormat == message.AttributeFormatUseTV,
 				Value: lt.AttributeValue, Var: cp(lt.VariableLengthAttributeValue)}
@@ -233,11 +236,11 @@ func FromLibPayload(lp message.IKEPayload) (model.Payload, error) {
 		sa := &model.SA{}
 		for _, lpr := range v.Proposals {
 			pr := model.Proposal{Number: lpr.ProposalNumber, Protocol: lpr.ProtocolID, SPI: cp(lpr.SPI)}
-			fromTransforms(&pr.Transforms, lpr.EncryptionAlgorithm)
-			fromTransforms(&pr.Transforms, lpr.PseudorandomFunction)
-			fromTransforms(&pr.Transforms, lpr.IntegrityAlgorithm)
-			fromTransforms(&pr.Transforms, lpr.DiffieHellmanGroup)
-			fromTransforms(&pr.Transforms, lpr.ExtendedSequenceNumbers)
+			fromTransforms(&pr.Transforms, lpr.EncryptionAlgorithm, 1)
+			fromTransforms(&pr.Transforms, lpr.PseudorandomFunction, 2)
+			fromTransforms(&pr.Transforms, lpr.IntegrityAlgorithm, 3)
+			fromTransforms(&pr.Transforms, lpr.DiffieHellmanGroup, 4)
+			fromTransforms(&pr.Transforms, lpr.ExtendedSequenceNumbers, 5)
 			sa.Proposals = append(sa.Proposals, pr)
 		}
 		return model.Payload{Kind: model.KSA, SA: sa}, nil
